@@ -36,7 +36,9 @@ def _scenario(program, value_kind, attrs_kind, exists, kw):
     heap["cur.state"] = Sym(("curstate",))
     heap["cur.attributes"] = DictV([(Const("old"), Sym(("curattr", "old")))])
     value = {"omitted": Const(None), "plain": ObjV("plain", "object"), "snapshot": sv}[value_kind]
-    na = {"omitted": Const(None), "empty": DictV(()), "dict": DictV([(Const("n"), Sym(("newattr", "n")))])}[attrs_kind]
+    na = {"omitted": Const(None), "empty": DictV((), "$caller.new_attributes"), "dict": DictV([(Const("n"), Sym(("newattr", "n")))], "$caller.new_attributes")}[attrs_kind]
+    if isinstance(na, DictV):
+        heap["$caller.new_attributes"] = DictV(na.items)
     kwargs = DictV([(Const("k"), Sym(("kwattr", "k")))]) if kw else DictV(())
 
     def states_get(interp, node, args, kwargs_, cfg, out):
@@ -58,6 +60,8 @@ def _scenario(program, value_kind, attrs_kind, exists, kw):
             mutated.append("the caller's snapshot (value.__dict__)")
         if c.heap.get("cur.attributes") != heap["cur.attributes"]:
             mutated.append("Home Assistant's attribute mapping of the entity")
+        if "$caller.new_attributes" in heap and c.heap.get("$caller.new_attributes") != heap["$caller.new_attributes"]:
+            mutated.append("the dictionary the caller passed as new_attributes")
         res.append((kind, calls, mutated, c))
     return res, value, na
 
